@@ -226,3 +226,67 @@ def inline_locals(e: ast.AST, env: Dict[str, ast.AST], depth: int = 3) -> ast.AS
                 return T(self.d - 1).visit(copy.deepcopy(env[node.id]))
             return node
     return T(depth).visit(copy.deepcopy(e))
+
+
+# --------------------------------------------------------------------------- set / string algebra on symbolic values
+def union_terms(e: ast.AST) -> List[str]:
+    """operands of a chain of set unions `a | b | {x}` (after the loader's canonical forms: .union(), .update(), .add()
+    are all written this way), as sorted canonical texts; a set display contributes each element as `{elem}`"""
+    out: List[str] = []
+
+    def rec(x):
+        if isinstance(x, ast.BinOp) and isinstance(x.op, ast.BitOr):
+            rec(x.left)
+            rec(x.right)
+        elif isinstance(x, ast.Set):
+            for el in x.elts:
+                out.append("{" + norm(el) + "}")
+        elif isinstance(x, ast.Call) and isinstance(x.func, ast.Name) and x.func.id == "set" and not x.args:
+            pass  # the empty set
+        else:
+            out.append(norm(x))
+    rec(strip_pre(e))
+    return sorted(out)
+
+
+def concat_parts(e: ast.AST) -> List[str]:
+    """pieces of a string concatenation / f-string as canonical texts (literal pieces quoted)"""
+    out: List[str] = []
+
+    def rec(x):
+        if isinstance(x, ast.BinOp) and isinstance(x.op, ast.Add):
+            rec(x.left)
+            rec(x.right)
+        elif isinstance(x, ast.JoinedStr):
+            for v in x.values:
+                if isinstance(v, ast.Constant):
+                    out.append(repr(v.value))
+                elif isinstance(v, ast.FormattedValue) and v.conversion == -1 and v.format_spec is None:
+                    rec(v.value)
+                else:
+                    out.append(norm(v))
+        elif isinstance(x, ast.Constant) and isinstance(x.value, str):
+            out.append(repr(x.value))
+        else:
+            out.append(norm(x))
+    rec(strip_pre(e))
+    merged: List[str] = []
+    for p in out:
+        if merged and p[:1] in "'\"" and merged[-1][:1] in "'\"":
+            merged[-1] = repr(ast.literal_eval(merged[-1]) + ast.literal_eval(p))
+        else:
+            merged.append(p)
+    return merged
+
+
+def set_marks(node: ast.AST) -> List[Tuple[str, ast.AST]]:
+    """places where something is added to a set: `S.add(x)` / `S.update(xs)` or, in the loader's canonical form for local
+    sets, `S = S | {x}` / `S = S | xs`.  -> (text of S, node)"""
+    out = []
+    for x in ast.walk(node):
+        if isinstance(x, ast.Call) and isinstance(x.func, ast.Attribute) and x.func.attr in ("add", "update") and len(x.args) == 1:
+            out.append((norm(x.func.value), x))
+        elif isinstance(x, ast.Assign) and len(x.targets) == 1 and isinstance(x.targets[0], ast.Name) and isinstance(x.value, ast.BinOp) and isinstance(x.value.op, ast.BitOr) \
+                and isinstance(x.value.left, ast.Name) and x.value.left.id == x.targets[0].id:
+            out.append((x.targets[0].id, x))
+    return out
